@@ -19,6 +19,7 @@ type decCase struct {
 	Bytes   []int           `json:"bytes"`
 	Prev    []int           `json:"prev"`
 	Hist    [][]int         `json:"hist"` // inputs decoded into the used receivers before prev (any outcome)
+	Prefill bool            `json:"prefill"` // the used receivers start as values the application filled in itself (every field set)
 	Class   string          `json:"class"`
 	Want    json.RawMessage `json:"p"`
 	WantN   int             `json:"n"`
@@ -71,6 +72,21 @@ func runDecode(raw json.RawMessage, w *Writer) {
 	// used receivers: decode the earlier input first (whatever its outcome)
 	up := &rtp.Packet{}
 	uh := &rtp.Header{}
+	if c.Prefill {
+		full := func() rtp.Header {
+			return rtp.Header{Version: 3, Padding: true, Extension: true, Marker: true, PayloadType: 127, SequenceNumber: 0xFFFF, Timestamp: 0xFFFFFFFF, SSRC: 0xFFFFFFFF,
+				CSRC: []uint32{1, 2, 3, 4, 5, 6, 7, 8, 9, 10, 11, 12, 13, 14, 15}, ExtensionProfile: 0x1000,
+				Extensions: []rtp.Extension{}}
+		}
+		fh := full()
+		_ = fh.SetExtension(1, []byte{1, 2, 3})
+		_ = fh.SetExtension(200, []byte{4})
+		_ = fh.SetExtension(7, []byte{})
+		up = &rtp.Packet{Header: fh, Payload: []byte{9, 9, 9, 9}, PaddingSize: 255}
+		h2 := full()
+		_ = h2.SetExtension(3, []byte{5, 6})
+		uh = &h2
+	}
 	for _, h := range c.Hist {
 		hb := bytesOf(h)
 		guard(func() { _ = up.Unmarshal(cloneBytes(hb)) })
